@@ -1,7 +1,7 @@
 //! C06: drives dasp_ring_buffer::{Bounded, Fixed} through operation sequences.
 //! Input line:  `B <kind> <start> <len> <d0> <d1> ... ; op , op , ...`
 //!          or  `F <kind> <first> <d0> <d1> ... ; op , op , ...`
-//! kind: 0 Vec, 1 Box<[T]>, 2 &mut [T], 3 [T; N] (N <= 8, else Vec)
+//! kind: 0 Vec, 1 Box<[T]>, 2 &mut [T], 3 [T; N] (N <= 8, else Vec), 4 Vec with spare capacity
 //! Output: observations joined by ';', each `tag payload...`
 //! tags: 0 None, 1 Some x, 2 value, 3 bool, 4 nat, 5 list, 6 pair (len1 then items), 7 unit, 8 panic code
 use dasp_ring_buffer::{Bounded, Fixed, Slice, SliceMut};
@@ -200,6 +200,12 @@ fn main() {
                         _ => unreachable!() } } }
                     go!(0 1 2 3 4 5 6 7 8)
                 }
+                4 => {
+                    // a Vec whose capacity exceeds its length: the spare capacity is not part of the buffer
+                    let mut v: Vec<i64> = Vec::with_capacity(data.len() + 5);
+                    v.extend_from_slice(&data);
+                    run_bounded(|| Bounded::from_raw_parts(start, len, v), &ops)
+                }
                 _ => run_bounded(|| Bounded::from_raw_parts(start, len, data.clone()), &ops),
             }
         } else {
@@ -218,6 +224,11 @@ fn main() {
                         $($N => run_fixed(|| Fixed::from_raw_parts(first, arr::<$N>(&data)), ops2),)*
                         _ => unreachable!() } } }
                     go!(0 1 2 3 4 5 6 7 8)
+                }
+                4 => {
+                    let mut v: Vec<i64> = Vec::with_capacity(data.len() + 5);
+                    v.extend_from_slice(&data);
+                    run_fixed(|| Fixed::from_raw_parts(first, v), &ops)
                 }
                 _ => run_fixed(|| Fixed::from_raw_parts(first, data.clone()), &ops),
             }
